@@ -116,6 +116,21 @@ func (e *srchEngine) analyzeAll(p *tak.Position) ([][]tak.Move, int64, ai.Stats)
 	return out, v, st
 }
 
+// analyzeAllCancel runs AnalyzeAll with the context cancelled inside the k-th leaf evaluation of the whole call (k = 0: never); the
+// count includes the leaf evaluations of the second pass, so a k beyond Analyze's own leaves flips the flag during the second pass.
+func (e *srchEngine) analyzeAllCancel(p *tak.Position, k int) ([][]tak.Move, int64, ai.Stats) {
+	ctx, cancel := context.WithCancel(context.Background())
+	e.cnt, e.cancelAt, e.cancel, e.flipped = 0, k, cancel, false
+	pvs, v, st := e.ai.AnalyzeAll(ctx, p)
+	cancel()
+	e.cancelAt = 0
+	out := make([][]tak.Move, len(pvs))
+	for i := range pvs {
+		out[i] = append([]tak.Move(nil), pvs[i]...)
+	}
+	return out, v, st
+}
+
 // wire format of a configuration, as read by ocaml/drv_c05.ml: size depth evk nosort nonull noreduce multicut tablelen
 func (e *srchEngine) encCfg() string {
 	sc := e.sc
